@@ -374,11 +374,11 @@ impl Scenario for Canonical {
     }
     fn generate(&self, rng: &mut Rng, tier: Tier, run: u64) -> Value {
         let huge = rng.chance(1);
-        let gigantic = rng.below(4000) == 0;
+        let gigantic = rng.below(2000) == 0;
         let size = if gigantic { SizeClass::Gigantic } else if huge { SizeClass::Huge } else { draw_size(rng, 0) };
         let ic = if gigantic { *rng.pick(&[1u8, 2, 4]) } else { draw_ic(rng, huge) };
         let a = draw_archive(rng, size, ic);
-        let n = a.tiles.len() as u32;
+        let n = if a.gen.is_some() { 300_000 } else { a.tiles.len() as u32 };
         let every = if tier == Tier::Quick { 60 } else { 400 };
         to_value(&CanonCase {
             a,
@@ -392,7 +392,8 @@ impl Scenario for Canonical {
         })
     }
     fn execute(&self, case: &Value, ctx: &mut Ctx) -> V<()> {
-        let c: CanonCase = from_value(case);
+        let mut c: CanonCase = from_value(case);
+        c.a.materialise();
         ctx.evals += 1;
         let model = Model::of(&c.a);
         if model.tiles.len() >= 2 {
@@ -487,7 +488,7 @@ impl Scenario for Canonical {
         }
         // another OS process (fresh hash keys, natural iteration order)
         let case_text = case.to_string();
-        if c.cross_process && case_text.len() < 100_000 {
+        if c.cross_process && case_text.len() < 100_000 && c.a.gen.is_none() {
             let digest = format!("{:016x}", hash_bytes(bytes_a.len() as u64, &bytes_a));
             let exe = std::env::current_exe().map_err(|e| sut::Violation::new("harness", e.to_string())).unwrap();
             let out = std::process::Command::new(exe).arg("canon-digest").arg(&case_text).output();
@@ -531,7 +532,8 @@ pub fn canon_digest_main(case_json: &str) -> i32 {
         eprintln!("bad case json");
         return 2;
     };
-    let c: CanonCase = from_value(&v);
+    let mut c: CanonCase = from_value(&v);
+    c.a.materialise();
     let mut ctx = Ctx::default();
     match history_a_bytes(&c, None, &mut ctx) {
         Ok(b) => {
